@@ -468,7 +468,10 @@ class Interp:
         elif T is ast.Return:
             raise Return(self.eval(s.value, env) if s.value else None)
         elif T is ast.If:
-            if self.truth(self.eval_cond(s.test, env)): yield from self.exec_block(s.body, env)
+            cnd = self.eval_cond(s.test, env)
+            if isinstance(cnd, (SymBool, SymInt)) and self.mergeable(s) and self.merge_if(s, cnd, env):
+                return
+            if self.truth(cnd): yield from self.exec_block(s.body, env)
             else: yield from self.exec_block(s.orelse, env)
         elif T is ast.While:
             n = 0
@@ -539,6 +542,50 @@ class Interp:
             env.vars.update(ns)
         else:
             raise EngineError('unsupported statement ' + T.__name__)
+
+    # ---- if-conversion: `if c: x = e1 else: x = e2` over local names becomes x = ite(c, e1, e2) instead of two paths
+    def mergeable(self, s):
+        for st in list(s.body) + list(s.orelse):
+            if isinstance(st, ast.Pass): continue
+            if isinstance(st, ast.Assign) and all(isinstance(t, ast.Name) for t in st.targets): continue
+            if isinstance(st, ast.AugAssign) and isinstance(st.target, ast.Name): continue
+            return False
+        return True
+
+    def merge_if(self, s, cnd, env):
+        """returns True when both arms were evaluated on shadow environments and merged; False -> caller forks as usual"""
+        arms = []
+        for block in (s.body, s.orelse):
+            sh = Env(env.globals, env, cls=env.cls); sh.selfobj = env.selfobj
+            try:
+                for _ in self.exec_block(block, sh): return False
+            except (Infeasible, EngineError): raise
+            except Exception:
+                return False
+            arms.append(sh.vars)
+        names = set(arms[0]) | set(arms[1])
+        merged = {}
+        for n in names:
+            try:
+                a = arms[0][n] if n in arms[0] else env.lookup(n)
+                b = arms[1][n] if n in arms[1] else env.lookup(n)
+            except NameError:
+                return False
+            m = self.merge_values(cnd, a, b)
+            if m is NotImplemented: return False
+            merged[n] = m
+        env.vars.update(merged)
+        return True
+
+    def merge_values(self, cnd, a, b):
+        if a is b: return a
+        ia = isinstance(a, (int, SymInt)) and not isinstance(a, bool)
+        ib = isinstance(b, (int, SymInt)) and not isinstance(b, bool)
+        if ia and ib: return ite(cnd, a, b)
+        if type(a) is type(b) and type(a).__name__ in ('Bits', 'Tweak') and isinstance(a.size, int) and isinstance(b.size, int) \
+           and a.size == b.size and isinstance(a.mask, int) and a.mask == b.mask:
+            r = copy.copy(a); r.ival = ite(cnd, a.ival, b.ival); return r
+        return NotImplemented
 
     def mangle(self, name, env):
         if name.startswith('__') and not name.endswith('__') and env.cls:
@@ -659,14 +706,31 @@ class Interp:
                 if not self.truth(ok): raise IndexError('index out of range')
                 if i.lo < 0:
                     if self.truth(i < 0): i = i + n
-                return select(list(o), i)
+                return self.select_items(list(o), i)
             if isinstance(o, dict):
+                ks = sorted(k for k in o if isinstance(k, int)) if all(isinstance(k, int) for k in o) else None
+                if ks and ks == list(range(len(ks))):
+                    ok = land(i >= 0, i < len(ks))
+                    if not self.truth(ok): raise KeyError('symbolic key outside the table')
+                    return self.select_items([o[k] for k in ks], i)
                 raise EngineError('dict lookup with symbolic key')
             raise EngineError('symbolic index into %s' % type(o).__name__)
         if isinstance(i, slice) and (isinstance(i.start, SymInt) or isinstance(i.stop, SymInt) or isinstance(i.step, SymInt)):
             i = slice(self.concretize(i.start, 'slice bound'), self.concretize(i.stop, 'slice bound'), self.concretize(i.step, 'slice step'))
         if isinstance(i, tuple) and has_sym(i) and isinstance(o, dict): raise EngineError('dict lookup with symbolic key')
         return o[i]
+
+    def select_items(self, items, i):
+        """items[i] for a symbolic index: integers directly; same-size bit vectors of the repository by selecting their payloads"""
+        lo, hi = max(i.lo, 0), min(i.hi, len(items) - 1)
+        sub = items[lo:hi + 1]
+        if all(isinstance(x, (int, SymInt)) and not isinstance(x, bool) for x in sub): return select(items, i)
+        t = type(sub[0])
+        if all(type(x) is t and hasattr(x, 'ival') and hasattr(x, 'mask') for x in sub) and len({x.size for x in sub}) == 1 and t.__name__ in ('Bits', 'Tweak'):
+            r = copy.copy(sub[0])
+            r.ival = select([x.ival for x in items], i)
+            return r
+        raise EngineError('symbolic index into a list of %s' % t.__name__)
 
     # ------------------------------------------------------------------ expressions
     def eval(self, e, env):
